@@ -2,7 +2,7 @@
 from common_props import COMMON_TRUSTED
 
 CFG = {
-    "engines": [["cut", 4, 12], ["stallwrite", 3, 12]],
+    "engines": [["cutbegin", 3, 12], ["cut", 4, 12], ["stallwrite", 3, 12]],
     "engine_timeout": 1500,
     "rule": "cut: a real client channel calls (300 ms deadline) through a loopback proxy that, at byte offset n of the request or "
             "of the response stream, closes both sockets / half-closes towards the receiver / stalls that direction / closes "
@@ -30,19 +30,45 @@ CFG = {
             "types, dropped/duplicated/swapped/appended fragments, chunk-less fragments, extra chunks; checksums re-sealed in 80%) under "
             "protocol-following, stray and random Begin/Read/Close/helper scripts through the real parseInboundFragment + "
             "fragmentingReader against Model/FragWire.v run_fragr; oracle: no panic, errors sticky, Complete only on a verified "
-            "well-formed prefix (checksums recomputed with hash/crc32), three successful helper reads return what that prefix denotes.",
+            "well-formed prefix (checksums recomputed with hash/crc32), three successful helper reads return what that prefix denotes. "
+            "cutbegin (sub c05cutbegin): the connection fails WHILE ANOTHER CALL BEGINS: 1-4 calls in flight on one connection at various "
+            "stages (begun / arg2 written / a fragment of arg3 flushed / request complete and waiting) + a sentinel waiting for the response + "
+            "1-2 NEW calls parked by the schedule controller between the connection-state check and the registration of their exchange "
+            "(outbound.afterStateCheck) when a TCP forwarder closes both sockets / half-closes towards the client / resets the client's socket; "
+            "the new calls are released after the failure has been delivered (the sentinel is back), then the calls in flight go on writing. "
+            "Every 4th scenario is the inbound side: a server whose listener hands out sockets with an injectable write error, its reader parked "
+            "at inbound.afterStateCheck with a new call req, the failure provoked by a trigger handler's response write, handlers in flight "
+            "that have read nothing / read their arguments / flushed response arg2, a sentinel handler blocked reading a withheld arg3. "
+            "Oracle: EVERY call (in flight, sentinel, new) is back by its deadline (500-900 ms) + 400 ms with an error or exactly the expected "
+            "response, every handler's reads/writes return by its context's deadline + 400 ms; a failing scenario alarms only when it "
+            "fails 4 of 4 runs. Model = Model/CutBegin.v run_c05cutbegin: paths over the generated wait-site AND lock-site tables "
+            "(a lock acquisition passes at once iff the site is in the table and every lock program passes the checker).",
     "trusted_base": COMMON_TRUSTED + [
         "regenerated from source on every run (go2v/waitsites.go -> Gen/GenWaitSites.v): the table of blocking statements of the "
         "outbound call path (closure of the call API under the static call graph: select without default, bare channel "
         "operations, Lock on a mutex held across network I/O, dial, net.Conn I/O with/without a context deadline) with the exits "
         "each offers; this extraction is a syntactic approximation (go statements and function values other than the dialer are "
         "not followed) and is trusted",
+        "regenerated from source on every run (go2v/lockprogs.go -> Gen/GenLockProgs.v): for every function / function literal of "
+        "package tchannel that performs a lock operation its LOCK PROGRAM (control-flow skeleton: Lock/RLock/Unlock/RUnlock/defer Unlock, "
+        "blocking statements, calls with the callee's summary 'may block / acquires these mutexes' over the static call graph, returns, "
+        "panics, break/continue, branches, loops), the mutex table with a rank witness, and the lock acquisitions in the closure of the "
+        "call API, the connection goroutines, the inbound side, the relay and the connection failure path. Balance, contents of the "
+        "critical sections and lock order are DECIDED IN COQ by a checker proved sound for every execution of a program. Trusted "
+        "(syntactic approximation): the skeleton extraction; the call graph follows direct/method calls, package interfaces (every "
+        "implementation), function literals (called at once, passed for a func-typed parameter, assigned to a local variable), and "
+        "func-typed struct fields (every function value stored into the field inside the package); NOT followed: function values that "
+        "come from outside the package (user callbacks, handlers, loggers), `go` statements (another goroutine); a deferred call other "
+        "than an unlock is attributed to the region open at the defer statement; mutexes are identified by declaring field / embedding "
+        "type, not by instance; a path that ends in panic(...) is exempt from balance",
         "modelled by hand, tied by correspondence (engine cut): connection.go readFrames loop over a finite byte stream, dispatch "
         "by message id, recvNextFragment/recvPeerFrameOfType/parseInboundFragment, the three ArgReadHelper reads of raw.ReadArgsV2, "
         "on top of the frame, fragment-parser and fragmentingReader models of C06/C01",
         "modelled by hand, tied by the scenario correspondence (c05dialq/c05noanswer/c05cancel) only at the level of predicted return "
         "moments: the time-abstract call path (Model/CallPath.v run_path) over the generated wait-site table; NOT tied: the "
-        "new-connection semaphore of peer.go as a transition system",
+        "new-connection semaphore of peer.go as a transition system; the thread model of C05_lock_wait_bounded treats read locks as "
+        "exclusive and one thread as one execution of one lock program (a goroutine that runs several programs in sequence is their "
+        "concatenation; a callee's acquisitions appear in the caller's trace as take-and-release events from the callee's summary)",
         "regenerated from source on every run (go2v target setInitDeadline -> Gen/GenBudget.v, proved equal to the hand-written "
         "init_deadline); hints (trusted): time.Now() => now, ctx.Deadline() => (ctx_has, ctx_deadline), the result is the argument of "
         "c.SetDeadline. Channel.Connect's context.WithTimeout is modelled by hand (Model/Budget.v connect_ctx) and tied by the "
